@@ -26,17 +26,29 @@ Full statement / proved / missing
   width's range, also after the `int64(uint64)` wrap-around.
 * `C18_map_any_order`  — a Go map rebuilt from the entries of the sorted Hash, in whatever order `sortedMap` left
                          them, is the original map.
-* `C18_struct`         — flat structs (tags `name=>`, `value=>` = declared default): `px.New(T, InitHash(wrap s))`, `px.New(T,
+* `C18_struct_value`, `C18_struct_ptr_value` — a value of a registered struct type (or a pointer to one) round-trips and
+                         is accepted whatever it contains: the object holds the Go value; so the theorems above cover
+                         nested structs, pointers to structs, slices / arrays / maps of structs with NO new exclusion
+                         (`RtOK` / `TaOK` are `true` on struct types; `C18_roundtrip_iff` / `C18_type_accepts_iff` stay exact).
+* `C18_parent_accepts`  — embedding: an instance of the child's type is an instance of every ancestor's type.
+* `C18_promotion`       — embedding: the attribute view of a struct (the embedded parent's fields promoted, recursively)
+                         and its inverse.
+* `C18_struct_nested`   — `C18_struct` for struct TERMS: nested structs, pointers to structs, containers of structs,
+                         embedded parents at any depth, embedded fields that are not the parent: all four construction
+                         forms give back the same struct value.
+* `C18_struct`         — the attribute-list form (tags `name=>`, `value=>` = declared default): `px.New(T, InitHash(wrap s))`, `px.New(T,
                          full hash)` (named dispatch → PositionalFromHash cuts trailing defaults → setValues puts them
                          back), `px.New(T, attribute values…)` and the same without the trailing defaults (positional
                          dispatch) all reflect back to the field values of `s`, for every field list with distinct
                          attribute names whose fields are in both halves above.  `C18_defaults_restored`: cut + put back
                          is the identity for any attribute list.
 * missing (partial): `reflect` itself is the model's parameter (trusted base) — MakeSlice, MakeMap, SetMapIndex, Set,
-  truncating SetInt/SetUint, float32 conversion `r32` (assumed exact on float32 values: hypothesis `hr`); nested
-  structs, pointers to structs, embedding, struct tags other than `name`, registration in the implementation registry,
-  a bare interface{} field (Runtime fall-back value), interface{} holding containers, map keys other than integers /
-  strings / booleans — all of these are only tested on the implementation (ops `@refl`/`@reflraw`/`@obj`).
+  truncating SetInt/SetUint, float32 conversion `r32` (assumed exact on float32 values: hypothesis `hr`); struct types
+  that are not registered or derived anonymously, the registry-mapped path, an embedded POINTER to a struct and fields
+  that shadow a field of an embedded struct (two new known findings, implementation only), struct tags other than
+  `name` / `value`, a bare interface{} field (Runtime fall-back value), interface{} holding containers, map keys other
+  than integers / strings / booleans — all of these are only tested on the implementation (ops `@refl`/`@reflraw`/
+  `@reflanon`/`@obj`/`@objreg`).
 -/
 namespace Pcore.Reflect
 
@@ -151,6 +163,121 @@ example : trimDefaults (attrOrder id (sampleStruct.map (·.1))) ((attrOrder (·.
     keeps the Go zero value -/
 example : restore [{ name := "p", ty := .uint 16, dflt := some (.int 8080) }] [] = [.int 8080] ∧
     zeroOf (.uint 16) = .int 0 := ⟨rfl, rfl⟩
+
+/-! ### structs inside the type language: nested structs, pointers to structs, slices / maps of structs, embedding -/
+
+/-- a value of a registered struct type round-trips and is accepted by the derived object type WHATEVER it contains
+    (also the shapes `RtOK` / `TaOK` exclude elsewhere): `FromReflectedValue` makes the object hold the Go value and
+    `reflectedObject.ReflectTo` hands it back; `IsInstance` compares the types -/
+theorem C18_struct_value (r32 : Nat → Nat) (S : GoTy) (via : Bool) (v : GoVal) (hs : isStruct S = true) :
+    reflectTo r32 S (wrap via S v) = some v ∧ inst (typeOf S) (wrap via S v) = true := by
+  cases S <;> simp [isStruct] at hs <;> simp [wrap, reflectTo, typeOf, inst]
+
+/-- the same through a pointer: the registry is consulted before the pointer is dereferenced, the object holds the pointer;
+    the nil pointer is undef, which the derived Optional[Object] accepts and which comes back as the nil pointer -/
+theorem C18_struct_ptr_value (r32 : Nat → Nat) (S : GoTy) (via : Bool) (v : GoVal) (hs : isStruct S = true) :
+    reflectTo r32 (.ptr S) (wrap via (.ptr S) (.ptr v)) = some (.ptr v) ∧
+    inst (typeOf (.ptr S)) (wrap via (.ptr S) (.ptr v)) = true ∧
+    reflectTo r32 (.ptr S) (wrap via (.ptr S) .nil) = some .nil ∧ inst (typeOf (.ptr S)) (wrap via (.ptr S) .nil) = true := by
+  cases S <;> simp [isStruct] at hs <;> simp [wrap, reflectTo, typeOf, inst, isStruct]
+
+/-- what the opacity means: a nil `[]int` FIELD comes back nil (the same nil slice on its own comes back empty:
+    `C18_nil_slice_becomes_empty`) and a `uint64` field ≥ 2^63 does not disturb the type's acceptance -/
+example (r32 : Nat → Nat) :
+    reflectTo r32 (.scons "A" {} (.slice (.int 0)) (.scons "B" {} (.uint 64) .snil))
+      (wrap true (.scons "A" {} (.slice (.int 0)) (.scons "B" {} (.uint 64) .snil)) (.st [.nil, .int (2 ^ 63)])) =
+      some (.st [.nil, .int (2 ^ 63)]) := (C18_struct_value r32 _ true _ rfl).1
+
+theorem ancestors_struct : ∀ (S P : GoTy), P ∈ ancestors S → isStruct P = true := by
+  intro S
+  induction S with
+  | scons n tg ft rest ihf _ =>
+      intro P h
+      simp only [ancestors] at h
+      split at h
+      · rename_i hc
+        simp only [Bool.and_eq_true] at hc
+        rcases List.mem_cons.mp h with rfl | h
+        · exact hc.2
+        · exact ihf P h
+      · cases h
+  | _ => intro P h; simp [ancestors] at h
+
+/-- embedding: the object type of a struct whose first field is an embedded struct has that struct's type as its parent,
+    so an instance of the child is an instance of every ancestor's type -/
+theorem C18_parent_accepts (S P : GoTy) (v : GoVal) (hs : isStruct S = true) (hp : P ∈ ancestors S) :
+    inst (typeOf P) (wrap true S v) = true := by
+  have hP := ancestors_struct S P hp
+  cases S <;> simp [isStruct] at hs <;> cases P <;> simp [isStruct] at hP <;>
+    simp_all [wrap, typeOf, inst, ancestors]
+
+/-- embedding: the attributes of the child are the parent's (recursively) and its own; reading them through Go's field
+    promotion and writing them back — the parent's into the embedded struct — is the identity on well-typed structs -/
+theorem C18_promotion (S : GoTy) (v : GoVal) (hs : isStruct S = true) (hv : hasType S v = true) :
+    (flatVals S v).length = (attrsOf S).length ∧ rebuild S (flatVals S v) = v ∧
+    ∀ fv ∈ objFVs S v, hasType fv.1.ty fv.2 = true :=
+  ⟨(obj_typed S v hv).1.symm, rebuild_flat S v hs hv, (obj_typed S v hv).2⟩
+
+/-- what a struct (type term and value) must satisfy for the object-type round trip: derivable (`structWF`: distinct
+    attribute and Go names along the chain of embedded parents, every attribute a modelled field), well typed, and every
+    attribute value inside both halves of the bridge property as a FIELD (`via = false`); attributes whose type is a struct,
+    a pointer to one, a slice / map of them … are inside by `C18_struct_value` -/
+def StructOK (S : GoTy) (v : GoVal) : Prop :=
+  isStruct S = true ∧ structWF S = true ∧ hasType S v = true ∧
+  ∀ fv ∈ objFVs S v, RtOK false fv.1.ty fv.2 = true ∧ TaOK false fv.1.ty fv.2 = true
+
+/-- **structs as terms** (nested structs, pointers to structs, slices and maps of structs, embedded parents at any depth,
+    embedded fields that are not the parent, tags `name=>` / `value=>`): the object type derived from the struct type
+    constructs — from the init hash, from the hash with every attribute, positionally with and without the trailing
+    defaults — an instance that converts back to the SAME struct value, the parent's attributes landing in the embedded
+    parent. -/
+theorem C18_struct_nested (r32 : Nat → Nat) (hr : R32Exact r32) (S : GoTy) (v : GoVal) (h : StructOK S v) :
+    newNamedS r32 S (initHash (objFVs S v)) = some v ∧
+    newNamedS r32 S (fullHash (objFVs S v)) = some v ∧
+    newPosS r32 S ((attrOrder (·.1) (objFVs S v)).map fieldVal) = some v ∧
+    newPosS r32 S (trimDefaults (attrOrder id (attrsOf S)) ((attrOrder (·.1) (objFVs S v)).map fieldVal)) = some v := by
+  obtain ⟨hs, hw, hv, hok⟩ := h
+  obtain ⟨hl, ht⟩ := obj_typed S v hv
+  have e1 : (objFVs S v).map (·.1) = attrsOf S := zipFG_fst _ _ hl
+  have e2 : (objFVs S v).map (·.2) = flatVals S v := zipFG_snd _ _ hl
+  simp only [structWF, Bool.and_eq_true, List.all_eq_true] at hw
+  have hn : ((objFVs S v).map (·.1.name)).Nodup := by
+    have : (objFVs S v).map (·.1.name) = (attrsOf S).map (·.name) := by rw [← e1, List.map_map]; rfl
+    rw [this]; exact nodupS_nodup _ hw.1.1
+  have hf : ∀ fv ∈ objFVs S v, FieldOK fv := by
+    intro fv hfv
+    have hm : fv.1 ∈ attrsOf S := by rw [← e1]; exact List.mem_map.mpr ⟨fv, hfv, rfl⟩
+    exact ⟨hw.2 fv.1 hm, ht fv hfv, (hok fv hfv).1, (hok fv hfv).2⟩
+  obtain ⟨c1, c2, c3, c4⟩ := C18_struct r32 hr (objFVs S v) hn hf
+  rw [e1, e2] at c1 c2 c3 c4
+  simp only [newNamedS, newPosS, c1, c2, c3, c4, Option.map_some, rebuild_flat S v hs hv, and_self]
+
+/-- non-vacuity: `struct{ Base struct{ PID uint16 "value=>8080"; PL []string }; Name string; Addr *struct{Zip int32};
+    Tags []struct{K string} ; Mix struct{M bool} (embedded, not first) }` with the parent's PID at its declared default -/
+def sampleNested : GoTy :=
+  .scons "Base" { anon := true }
+    (.scons "PID" { dflt := some (.int 8080) } (.uint 16) (.scons "PL" {} (.slice .string) .snil))
+  (.scons "Name" { attr := some "label" } .string
+  (.scons "Addr" {} (.ptr (.scons "Zip" {} (.int 32) .snil))
+  (.scons "Tags" {} (.slice (.scons "K" {} .string .snil))
+  (.scons "Mix" { anon := true } (.scons "M" {} .bool .snil) .snil))))
+def sampleNestedVal : GoVal :=
+  .st [.st [.int 8080, .slice [.str "x"]], .str "n", .ptr (.st [.int (-5)]), .slice [.st [.str "k"]], .st [.bool true]]
+example : Modelled sampleNested = true ∧ (structsIn sampleNested).all structWF = true := by decide
+example : StructOK sampleNested sampleNestedVal := by
+  refine ⟨by decide, by decide, by decide, ?_⟩
+  intro fv hfv
+  simp only [sampleNested, sampleNestedVal, objFVs, attrsOf, declFields, flatVals, isStruct, Bool.and_self, if_true,
+    fieldOfDecl, zipFG, List.cons_append, List.nil_append, List.mem_cons, List.not_mem_nil, or_false,
+    Bool.false_eq_true, if_false] at hfv
+  rcases hfv with rfl | rfl | rfl | rfl | rfl | rfl <;> exact ⟨by decide, by decide⟩
+example : (attrsOf sampleNested).map (·.name) = ["pID", "pL", "label", "addr", "tags", "mix"] := by decide
+example : initHash (objFVs sampleNested sampleNestedVal) =
+    [(.str "pL", .arr [.str "x"]), (.str "label", .str "n"), (.str "tags", .arr [.obj (.scons "K" {} .string .snil) false (.st [.str "k"])]),
+     (.str "mix", .obj (.scons "M" {} .bool .snil) false (.st [.bool true])),
+     (.str "addr", .obj (.scons "Zip" {} (.int 32) .snil) true (.st [.int (-5)]))] := by rfl
+example : ancestors sampleNested = [.scons "PID" { dflt := some (.int 8080) } (.uint 16) (.scons "PL" {} (.slice .string) .snil)] := by
+  decide
 
 /-! ### non-vacuity: nested values that satisfy every hypothesis -/
 
